@@ -164,6 +164,9 @@ func (it sItem) xml() string {
 		return "<foo xmlns='urn:example:unknown'/>"
 	case "malformed":
 		return "<<<"
+	case "partial":
+		// (C13) the beginning of an element, written as it stands in Cond: the connection ends in the middle of an answer
+		return it.Cond
 	}
 	return ""
 }
@@ -210,6 +213,12 @@ type connScript struct {
 	// a client with a ClientSessionCache can RESUME a session of an earlier connection) and speaks at most TLS 1.2
 	// (the ticket is part of the handshake) / whatever is negotiated (TLS 1.3: tickets follow the handshake). "": as before.
 	Tickets string `json:"tickets,omitempty"`
+	// GateAt > 0 (C03, application send during the negotiation): the server holds back its GateAt-th answer (1: the
+	// answer to the client's first stream header, i.e. its own first stream header) -- it has read the client's request,
+	// closes gateReached, and sends nothing until gateRelease is closed (or 10 s have passed).
+	GateAt      int           `json:"gate_at,omitempty"`
+	gateReached chan struct{} `json:"-"`
+	gateRelease chan struct{} `json:"-"`
 }
 
 // cutConn is what the TLS layer of such a server writes to: the first bytes go through, then the connection is closed.
@@ -583,6 +592,13 @@ func (s *scriptedServer) serve(conn net.Conn, sc connScript, lg *connLog) {
 				tc.SetLinger(0)
 			}
 			return
+		}
+		if sc.GateAt > 0 && sent == sc.GateAt-1 && sc.gateReached != nil {
+			close(sc.gateReached)
+			select {
+			case <-sc.gateRelease:
+			case <-time.After(10 * time.Second):
+			}
 		}
 		g := sc.Groups[sent]
 		sent++
